@@ -104,6 +104,16 @@ theorem pass_log_eq_lin (h : LogLaws E log negInf) (logB : β → β) (pow : α 
   pass_hom (logOps_hom h logB pow F Pn hzero hlt hscale) hE hF inp stdIn stdOut ign order zL zN hz hr
     hgi hgo
 
+/-- **`np.argmax` commutes with `exp`** (the selection step of `outside_maximization`): the first
+index of a maximal entry is the same for a list of log-space scores and for its `exp`-image, because
+`exp` is strictly monotone (ties are ties in both spaces).  The maximization *pass* itself is not
+modelled in this cluster (C13); this is the only place where it compares numbers. -/
+theorem argmax_log_eq_lin (hlt : ∀ x y : β, x < y ↔ E x < E y) (l : List β) :
+    npArgmax (l.map E) = npArgmax l := by
+  cases l with
+  | nil => rfl
+  | cons x xs => exact npArgmaxFrom_hom hlt xs x 0 1
+
 /-- `posterior_grid = combine(inside, outside)` is preserved as well. -/
 theorem posterior_log_eq_lin (h : LogLaws E log negInf) (x y : List β) :
     (List.zipWith (· + ·) x y).map E = List.zipWith (· * ·) (x.map E) (y.map E) :=
